@@ -356,6 +356,9 @@ def weighted(rc):
         # every node gets a CPD
         if "self.model.nodes()" not in txt:
             rc.fail(gp, gp.node, f"{cls}.get_parameters must estimate a CPD for every node of the model", construct="all nodes")
+    # no estimator (nor DAG.fit) rebuilds the model from its edge list alone: a variable without any edge would get no CPD
+    from . import shared as _sh
+    _sh.rebuilt_from_edges_rule(rc, ("pgmpy/estimators/", "pgmpy/base/DAG.py"), only=lambda f: f.file.startswith("pgmpy/estimators/") or f.name == "fit")
     ps = repo.func(EB, "ParameterEstimator.state_counts")
     sup = [c for c in repo.calls_in(ps) if call_name(c) == "state_counts"]
     if not sup or dotted(kwarg(sup[0], "weighted")) != "weighted":
@@ -453,6 +456,8 @@ def defuse(rc):
     _sh.defuse_rule(rc, _sh.anchor_files("C06"))
 
 MUTANTS = [
+    dict(kind="break", name="bayesian-estimator-rebuilds-from-edges", file=BE, expect="C06.weighted",
+         old="                model_bn.add_nodes_from(model.nodes())\n", new=""),
     dict(kind="break", name="mle-parents-unsorted", file=MLE, expect="C06.parentorder",
          old="        parents = sorted(self.model.get_parents(node))\n        parents_cardinalities", new="        parents = list(self.model.get_parents(node))\n        parents_cardinalities"),
     dict(kind="break", name="counts-parents-unsorted", file=EB, expect="C06.parentorder",
